@@ -374,6 +374,10 @@ def _safeFormat(fmtString: str, fmtDict: Dict[str, Any]) -> str:
     # entire event dict.
     try:
         text = fmtString % fmtDict
+        if not isinstance(text, str):
+            # A bytes format string produces bytes; that is not a usable
+            # format string for a function which returns text.
+            raise TypeError("log format did not produce text")
     except KeyboardInterrupt:
         raise
     except BaseException:
